@@ -995,6 +995,11 @@ fn gen_point(r: &mut Rng, ox: i64, oy: i64, bad: bool) -> String {
     match r.below(12) {
         0 => pick(r, &["131072:0", "-131072:0", "0:131072", "131072:-131072", "1e3:5", "10.7:-10.7", " 7 : 8 ", "5:5:5", "3:4:", "+1:+2", "0.999:0.999", "-0.5:-0.5"]).to_string(),
         1 => format!("{ox}:{oy}"),
+        // fractional coordinates on either side of the slider head
+        2 => {
+            let fr = ["0.5", "0.25", "0.75", "0.999", "0.001"];
+            format!("{}.{}:{}.{}", ox + r.range(-60, 60), &fr[r.below(5)][2..], oy + r.range(-60, 60), &fr[r.below(5)][2..])
+        }
         _ => {
             let g = [0i64, 50, 100, 150, 200];
             format!("{}:{}", ox + g[r.below(5)] - 100, oy + g[r.below(5)] - 100)
@@ -1338,6 +1343,47 @@ pub fn generate(tier: &str, seed: u64, out: &mut Out) {
         run_case(0, &batch, out);
     }
     out.count_n("sweep_type_x_sound_lines", n_sweep);
+
+    // ---- a line that passes the five common fields but is rejected later, in every
+    //      context, followed by a circle and a slider without the new-combo flag
+    let late_rejects = [
+        "0,0,10,2,0,L|1:1,9001",
+        "0,0,10,2,0,L|1:1",
+        "0,0,10,2,0",
+        "0,0,10,2,0,L|1:1,1,nan",
+        "0,0,10,2,0,L|1:1,1,10,0,0:0,x:y",
+        "0,0,10,2,0,L|1:1,1,10,0,1",
+        "0,0,10,2,0,L|a:1,1",
+        "0,0,10,10,0,L|1:1,9001",
+        "0,0,10,1,0,x",
+        "0,0,10,9,0,1",
+        "256,192,10,8,0",
+        "256,192,10,12,0,abc",
+        "256,192,10,8,0,20,1",
+        "0,0,10,0,0",
+        "0,0,10,4,0",
+        "0,0,10,112,0",
+        "0,0,10,128,0,x:0:0",
+        "0,0,10,136,0",
+    ];
+    let contexts: [&[&str]; 4] = [&[], &["5,5,5,1,0"], &["256,192,5,12,0,8"], &["5,5,5,128,0,8:0:0:0:0:"]];
+    for rej in late_rejects {
+        for ctx in contexts {
+            let mut lines: Vec<String> = ctx.iter().map(|x| x.to_string()).collect();
+            lines.push(s(rej));
+            lines.push(s("30,30,30,1,0"));
+            lines.push(s("40,40,40,2,0,L|50:50,1"));
+            run_case(0, &lines, out);
+        }
+    }
+    // fractional path coordinates around the head (truncate first, then make relative)
+    for (hx, hy) in [(100, 100), (0, 0), (-50, 70)] {
+        for p in ["50.5:80.75|150.5:99.25", "99.5:100.5|100.5:99.5", "-0.5:0.5|0.5:-0.5", "50.5:50|0:0", "100.9:100.9|101.9:101.9"] {
+            for l in ["B", "P", "L", "C"] {
+                run_case(0, &[format!("{hx},{hy},1000,2,0,{l}|{p},1,100")], out);
+            }
+        }
+    }
 
     // ---- every type byte followed by a bare circle and a bare slider: last_object effects
     for ty in -256i64..512 {
